@@ -81,9 +81,10 @@ CLAIMS = {
              'fill 0..5), C09_any_length, C09_armor_roundtrip (decode_into_bit_array (encode_ascii_6 b) = b with fill = '
              '(6 - |b| mod 6) mod 6 for ALL bit strings), C09_frame_roundtrip (fragment payloads de-armor back to the bits), '
              'C09_encode_msg / C09_encode_dict and the type-key lemmas are proved in Coq, by induction along the chunk list; '
-             'hex formatting over 256 cases by vm_compute. "Accepted by the decoder" is stated in Coq as the clause list plus '
-             'the de-armoring round trip (sentence parsing is the model of C05/C10) and demanded by the oracle on the '
-             'implementation (pyais.decode succeeds and reassembles the encoded bits). ' + TIE,
+             'hex formatting over 256 cases by vm_compute. "Accepted by the decoder" is a theorem too: C09_frame_is_carrier (the '
+             'encoder\'s sentences are members of the carrier family of C04) and C09_accepted_by_decoder (for every bit string '
+             'of 1..1800 bits the decoder model, run on the sentences the encoder model emits, sees exactly the encoded bits: '
+             'mmap snd (decode_api false ss) = decode_bits b), lifted to encode_msg / encode_dict. ' + TIE,
         note=BASE_NOTE + 'Prim/Fmt.v models str(int) / format(int, "02X"); Spec/FrameSpec.v is the hand-written clause list; '
              'ASCII-only strings; the fragment size and template literals are tied to pyais/encode.py by C09_literals_tied over '
              'the regenerated Gen/GenConst.v.',
@@ -137,7 +138,9 @@ CLAIMS = {
              'statement C02_statement is kept visible and REFUTED (C02_refuted with one witness theorem per finding family: '
              'inherited msg_type of types 2/3/11/13, short data of type 26, empty text, empty data, and the literal half-step '
              'tolerance C02_refuted_half_step); these are the open known findings (no small safe repair: the existing tests '
-             'pin the behaviour) and are excluded from C02_partial by boolean guards. Sentence framing is C09, parsing C04. '
+             'pin the behaviour) and are excluded from C02_partial by boolean guards. C02_end_to_end states the same through the '
+             'REAL path create -> to_bitarray -> encode_ascii_6 -> ais_to_nmea_0183 -> produce -> assemble -> decode (encode_msg '
+             'and encode_dict with either type key, both talkers and channels; the 1800-bit bound is proved from the tables). '
              + TIE,
         note=BASE_NOTE + 'Spec/RoundTripSpec.v (in_range, normalise, tolerance) is hand-written over Spec/Layout.v; binary64 '
              'arithmetic through the standard model (generators keep supplied reals away from quantisation ties for the '
@@ -240,18 +243,24 @@ CLAIMS = {
              'iteration are modelled as lists.',
         design='DESIGN.md section 7, C05'),
     'C07': dict(
-        technique='Coq proof that the two reassembly loops compute the same step (up to the IndexError the queue alone catches) '
-                  'and that all front-ends feed the same lines + differential check running every line sequence through six '
-                  'front-ends and decode()',
-        text='C07_partial: C07_queue_step_eq (queue_step = stream_step wherever no IndexError is caught), C07_runs_agree, '
-             'C07_runs_equal, C07_frontends_agree (IterMessages / ByteStream / BinaryIOStream / FileReaderStream feed the same '
-             'line list for lines passing the Stream filter; SocketStream by C06), C07_assemble_perm are proved in Coq. PARTIAL: '
-             'the clause "decode() of a message\'s parts agrees with decoding the delivered sentence" is proved at the level of '
-             'assemble_from_iterable (same assembled record for any permutation) and C04, and demanded by the oracle on the '
-             'implementation on every run; its single Coq statement over Model/DecodeApi.v is not composed yet. ' + TIE,
+        technique='Coq proof composing parser, tag block queue, both reassembly loops, the socket splitter and decode(): the '
+                  'two loops are equal on every line sequence, all six front-ends deliver identical records, and decode() of '
+                  'a message\'s parts in any order agrees with the sentence the readers deliver + differential check running '
+                  'every line sequence through six front-ends (socket also in small chunks) and decode()',
+        text='Theorem C07 (: C07_statement) is proved in full: C07_readers_loops_equal (rd_run with queue_step = rd_run with '
+             'stream_step for ALL line sequences), C07_six_frontends (IterMessages, ByteStream, BinaryIOStream, '
+             'FileReaderStream, SocketStream under every segmentation, NMEAQueue return identical records, tag block groups and '
+             'final states), C07_terminators and C07_raw (LF / CR LF do not change what is parsed; the raw text is the stripped '
+             'line without its tag block), C07_wrappers, C07_decode_agrees and C07_decode_agrees_schedule (for a complete '
+             'message whose parts parse, the reader -- whatever other lines are interleaved -- delivers exactly one sentence whose '
+             'raw / payload / bits / validity / message id are those of decode_api of ANY permutation of the parts, and '
+             'sentence_decode of it equals the decoded message), C07_decode_by_content; C07_partial remains as a corollary. '
+             'Restrictions are on hypotheses only (the message\'s own slot holds exactly its parts, or the whole input is a '
+             'well-formed schedule). ' + TIE,
         note=BASE_NOTE + 'preprocessors are not modelled; lines starting with white space or a non-standard delimiter are '
-             'outside the property (generated for model-vs-code only).',
-        design='DESIGN.md section 7, C07'),
+             'outside the property (generated for model-vs-code only); which fragment\'s header attributes (talker, checksum) '
+             'the assembled record inherits is not characterised beyond equality among the readers.',
+        design='DESIGN.md section 7, C07 and section 12'),
     'C10': dict(
         technique='Coq proof (XOR substitution lemma, checksum-field parsing, conjunction on assembly, strict mode) over the '
                   'exception-precise parser model for all sentences + exhaustive single-byte corruption sweeps on the '
